@@ -521,3 +521,18 @@ Proof.
   - intros pos' Hd' Hne Hc1 Hc2 Hin. apply Hkeep; [exact Hin|].
     intros E. inversion E as [E']. destruct (placement_inj pos' pos Hd' Hd E') as [X|[[X Y]|[X Y]]]; subst; tauto.
 Qed.
+
+(* the bytes of every call parse, and to exactly the commands step_items *)
+Lemma step_bytes_parse st o : cache_wf st -> op_wf o ->
+  parse_stream (fst (fst (step st o))) = Some (step_items st o).
+Proof.
+  intros Hc Hw. unfold step.
+  destruct o as [img hash pos|img hash pos|ev]; cbn [op_wf step_items] in *.
+  - destruct (draw st img hash pos) as [b st'] eqn:E. cbn [fst].
+    pose proof (parse_draw st img hash pos Hw) as P. rewrite E in P. exact P.
+  - cbn [fst]. apply parse_erase.
+  - destruct (handle st ev) as [[b st'] r] eqn:E. cbn [fst].
+    assert (Hwf : forall id img hash, lookup id (k_imgs st) = Some (img, hash) -> image_wf img)
+      by (intros id img hash Hl; apply (Hc id img hash Hl)).
+    pose proof (parse_handle st ev Hwf) as P. rewrite E in P. exact P.
+Qed.
